@@ -81,8 +81,6 @@ func (o cop) term() string {
 		return "OPop"
 	case "reset":
 		return "OReset"
-	case "flushpop":
-		return "OPop"
 	}
 	return "OLast"
 }
@@ -126,15 +124,6 @@ func applyCop(ca *cache.Cache, o cop) string {
 			}
 		case "reset":
 			ca.Reset()
-		case "flushpop":
-			// the flush of a persister created WithFlush after a successful Save: Memory.Reset(); Memory.Pop()
-			// on this very cache object (always generated right after a "reset", so the Reset inside is idle)
-			m := memdb.NewMemDb()
-			m.Connect(context.Background(), "")
-			pe := persist.NewPersister(m).WithFlush().WithContent(state.NewState(1), ca)
-			if err := pe.Save("k"); err != nil {
-				res = cacheErr(err)
-			}
 		case "last":
 			res = "(RVal " + hx.S(ca.Last()) + ")"
 		}
@@ -206,22 +195,44 @@ func runCache(o opts) error {
 		}
 		obs := []string{}
 		shorts := []string{}
+		terms := []string{}
+		emit := func(k string) {
+			w.Add(hx.Case{Kind: k, Trivial: len(terms) < 2,
+				Term: fmt.Sprintf("mkCacheCase %d %s %s", cap, hx.List(terms), hx.List(obs)),
+				Desc: map[string]interface{}{"cap": cap, "ops": shorts}})
+			obs, shorts, terms = []string{}, []string{}, []string{}
+		}
 		for _, op := range ops {
+			if op.kind == "flushpop" {
+				// the flush of a persister created WithFlush after a successful Save hands out a NEW, empty
+				// cache of the same capacity: the history goes on with that object as a case of its own
+				m := memdb.NewMemDb()
+				m.Connect(context.Background(), "")
+				pe := persist.NewPersister(m).WithFlush().WithContent(state.NewState(1), ca)
+				pk, _ := hx.Recover(func() {
+					if err := pe.Save("k"); err != nil {
+						panic(err)
+					}
+				})
+				w.Count("op:flush")
+				if pk || pe.Memory == nil {
+					break
+				}
+				emit(kind)
+				kind = kind + "+after-flush"
+				ca = pe.Memory
+				continue
+			}
 			res := applyCop(ca, op)
 			obs = append(obs, cacheObs(ca, res))
 			shorts = append(shorts, op.short()+"=>"+res[:min(len(res), 24)])
+			terms = append(terms, op.term())
 			w.Count("op:" + op.kind)
 			if strings.HasPrefix(res, "(RErr") {
 				w.Count("rejected:" + op.kind)
 			}
 		}
-		terms := make([]string, len(ops))
-		for i, op := range ops {
-			terms[i] = op.term()
-		}
-		w.Add(hx.Case{Kind: kind, Trivial: len(ops) < 2,
-			Term: fmt.Sprintf("mkCacheCase %d %s %s", cap, hx.List(terms), hx.List(obs)),
-			Desc: map[string]interface{}{"cap": cap, "ops": shorts}})
+		emit(kind)
 	}
 	// corpus: the 16-bit boundary and update-to-empty histories that used to fail
 	big := strings.Repeat("x", 65539)
